@@ -3,7 +3,9 @@
 // 52 global pointer variables of four types (void*, function pointer, double*, int**) through UT_PTR_SET and
 // end by pass / FAIL / FAIL_C / throw; `run <outcome> sep|ign|runign` runs the same body in a separate
 // process / as an IgnoredUtestShell / as a run-ignored one; plugins f0, f1 (ids 20, 21) report a failure from
-// their pre action.
+// their pre action.  `test <outcome> <body change> <post-action change>` queues a test, `runall` runs the queue through
+// ONE TestRegistry::runAllTests; a queued test may install / remove a plugin on the running registry from its body
+// and from the post action of a designated recording plugin.
 // Ops: `newset` constructs a further SetPointerPlugin object (the constructor resets the table index);
 // `install|enable|disable set` address the most recent one, older ones by id (99, 100, ...).
 // `set <ptr> <val>` lines collect the body of the next test, `run <outcome>` runs it.
@@ -42,16 +44,57 @@ int** g_pp[NTYPED];
 struct Shared { volatile unsigned done; volatile unsigned npre, npost; char pre[32][24]; char post[32][24]; };
 Shared* g_sh = 0;
 
+// A batch: several scripted tests run by ONE TestRegistry::runAllTests.  A test may change the chain of the
+// running registry once from its body and once from the post action of a designated recording plugin.
+struct Script {
+    std::vector<std::pair<unsigned, unsigned> > sets; std::string outcome;
+    int bm_kind; unsigned bm_idx; std::string bm_name;                 // 0 none, 1 install rec[bm_idx], 2 remove bm_name
+    unsigned pm_actor; int pm_kind; unsigned pm_idx; std::string pm_name;
+    Script() : bm_kind(0), bm_idx(0), pm_actor(0), pm_kind(0), pm_idx(0) {}
+};
+enum { MAXBATCH = 12, MAXBLOG = 1024 };
+struct BLogEntry { unsigned char test, post; char name[22]; };
+bool g_batch_active = false;
+UtestShell* g_bshell[MAXBATCH]; const Script* g_bscript[MAXBATCH]; unsigned g_bn = 0;
+BLogEntry g_blog[MAXBLOG]; unsigned g_nblog = 0; unsigned g_bdone[MAXBATCH]; unsigned g_bskipped = 0;
+TestRegistry* g_reg = 0;
+struct RecPlugin;
+std::vector<RecPlugin*>* g_rec = 0;
+unsigned batch_index(UtestShell* t) { for (unsigned i = 0; i < g_bn; i++) if (g_bshell[i] == t) return i; return g_bn ? g_bn - 1 : 0; }
+bool linked(TestRegistry* reg, TestPlugin* q) {
+    int guard = 0;
+    for (TestPlugin* p = reg->getFirstPlugin(); p && p != NullTestPlugin::instance() && ++guard < 100; p = p->getNext()) if (p == q) return true;
+    return false;
+}
+void change_chain(int kind, unsigned idx, const char* name);
+
 struct RecPlugin : public TestPlugin {
     unsigned id;
     RecPlugin(const char* name, unsigned i) : TestPlugin(name), id(i) {}
-    void preTestAction(UtestShell&, TestResult&) CPPUTEST_OVERRIDE {
+    void blog(UtestShell& test, bool post) {
+        if (g_nblog < MAXBLOG) { BLogEntry& e = g_blog[g_nblog++]; e.test = (unsigned char) batch_index(&test); e.post = post; strncpy(e.name, getName().asCharString(), 21); e.name[21] = 0; }
+    }
+    void preTestAction(UtestShell& test, TestResult&) CPPUTEST_OVERRIDE {
+        if (g_batch_active) { blog(test, false); return; }
         if (g_sh->npre < 32) { strncpy(g_sh->pre[g_sh->npre], getName().asCharString(), 23); g_sh->npre = g_sh->npre + 1; }
     }
-    void postTestAction(UtestShell&, TestResult&) CPPUTEST_OVERRIDE {
+    void postTestAction(UtestShell& test, TestResult&) CPPUTEST_OVERRIDE {
+        if (g_batch_active) {
+            blog(test, true);
+            const Script* sc = g_bscript[batch_index(&test)];
+            if (sc && sc->pm_kind && sc->pm_actor == id) change_chain(sc->pm_kind, sc->pm_idx, sc->pm_name.c_str());
+            return;
+        }
         if (g_sh->npost < 32) { strncpy(g_sh->post[g_sh->npost], getName().asCharString(), 23); g_sh->npost = g_sh->npost + 1; }
     }
 };
+void change_chain(int kind, unsigned idx, const char* name) {
+    if (kind == 1) {
+        if (idx < g_rec->size() && !linked(g_reg, (*g_rec)[idx])) g_reg->installPlugin((*g_rec)[idx]);
+        else g_bskipped++;                      // a linked object must not be installed again (cycle)
+    }
+    else if (kind == 2) g_reg->removePluginByName(name);
+}
 
 // a plugin that reports a failure from its pre action, the non-terminating way (result.addFailure)
 struct FailPrePlugin : public RecPlugin {
@@ -69,13 +112,19 @@ const unsigned SET_ID = 99;
 std::vector<SetPointerPlugin*>* g_sets = 0;
 std::vector<RecPlugin*>* g_failing = 0;
 
-struct Script { std::vector<std::pair<unsigned, unsigned> > sets; std::string outcome; };
 Script* g_script = 0;
 volatile unsigned g_done = 0;
 
-void body() {
-    // no object with a destructor in this frame: the body may be left by longjmp
-    const Script* s = g_script;
+void run_script(const Script* s, volatile unsigned* done_counter);
+void body() { run_script(g_script, g_batch_active ? &g_bdone[g_bn ? g_bn - 1 : 0] : &g_sh->done); }
+struct ScriptFn : public ExecFunction {
+    const Script* s; unsigned k;
+    ScriptFn(const Script* sc, unsigned i) : s(sc), k(i) {}
+    void exec() CPPUTEST_OVERRIDE { run_script(s, &g_bdone[k]); }
+};
+
+void run_script(const Script* s, volatile unsigned* done_counter) {
+    // no object with a destructor alive at the point where the body may be left by longjmp
     size_t n = s->sets.size();
     for (size_t i = 0; i < n; i++) {
         unsigned l = s->sets[i].first, v = s->sets[i].second;
@@ -83,8 +132,10 @@ void body() {
         else if (l < NVOID + NTYPED) UT_PTR_SET(g_fp[l - NVOID], FN_VAL[v]);
         else if (l < NVOID + 2 * NTYPED) UT_PTR_SET(g_dp[l - NVOID - NTYPED], &g_dvals[v]);
         else UT_PTR_SET(g_pp[l - NVOID - 2 * NTYPED], &g_pvals[v]);
-        g_sh->done = g_sh->done + 1;
+        *done_counter = *done_counter + 1;
     }
+    // the change of the running registry's chain: after the redirections, before the test ends
+    if (s->bm_kind) change_chain(s->bm_kind, s->bm_idx, s->bm_name.c_str());
     const char* o = s->outcome.c_str();
     if (strcmp(o, "fail") == 0) FAIL("scripted failure");
     if (strcmp(o, "failc") == 0) FAIL_TEXT_C("scripted C failure");
@@ -138,6 +189,7 @@ void run_case(const vh::Case& c) {
     TestTestingFixture fixture;
     fixture.setTestFunction(body);
     TestRegistry* reg = fixture.getRegistry();
+    g_reg = reg;
     // SetPointerPlugin objects: ids SET_ID, SET_ID+1, ...; `newset` constructs a further one (the constructor
     // resets the process-wide table index); `set` in install/enable/disable means the most recent one
     std::vector<SetPointerPlugin*> sets;
@@ -145,6 +197,8 @@ void run_case(const vh::Case& c) {
     sets.push_back(new SetPointerPlugin("SetPointerPlugin"));
     std::vector<RecPlugin*> rec;
     for (unsigned i = 0; i < NREC; i++) rec.push_back(new RecPlugin(REC_NAMES[i], i));
+    g_rec = &rec;
+    std::vector<Script> batch;
     std::vector<RecPlugin*> failing;
     failing.push_back(new FailPrePlugin("f0", FAIL_ID)); failing.push_back(new FailPrePlugin("f1", FAIL_ID + 1));
     g_failing = &failing;
@@ -275,6 +329,72 @@ void run_case(const vh::Case& c) {
             std::string m = "mem";
             for (unsigned k = 0; k < NPTR; k++) { m += " "; m += val_token(k); }
             vh::emit("%s", m.c_str());
+        }
+        else if (w[0] == "test" && w.size() == 4) {      // test <outcome> <-|i<rec>|r<name>> <-|<actor>:i<rec>|<actor>:r<name>>: queued for `runall`
+            Script sc; sc.outcome = w[1];
+            bool ok = sc.outcome == "pass" || sc.outcome == "fail" || sc.outcome == "failc" || sc.outcome == "throw" || sc.outcome == "throwint";
+            std::string bm = "-", pm = "-"; char buf[64];
+            if (w[2] != "-") {
+                if (w[2][0] == 'i') { sc.bm_kind = 1; sc.bm_idx = (unsigned) vh::to_u64(w[2].substr(1)); ok = ok && sc.bm_idx < NREC - 2;
+                    if (ok) { snprintf(buf, sizeof buf, "i:%u:%s", sc.bm_idx, REC_NAMES[sc.bm_idx]); bm = buf; } }
+                else if (w[2][0] == 'r' && w[2].size() > 1 && w[2] != "rnull") { sc.bm_kind = 2; sc.bm_name = w[2].substr(1); bm = "r:" + sc.bm_name; }
+                else ok = false;
+            }
+            if (w[3] != "-") {
+                size_t colon = w[3].find(':');
+                if (colon == std::string::npos || colon + 1 >= w[3].size()) ok = false;
+                else {
+                    sc.pm_actor = (unsigned) vh::to_u64(w[3].substr(0, colon));
+                    std::string rest = w[3].substr(colon + 1);
+                    if (rest[0] == 'i') { sc.pm_kind = 1; sc.pm_idx = (unsigned) vh::to_u64(rest.substr(1)); ok = ok && sc.pm_idx < NREC - 2;
+                        if (ok) { snprintf(buf, sizeof buf, "%u:i:%u:%s", sc.pm_actor, sc.pm_idx, REC_NAMES[sc.pm_idx]); pm = buf; } }
+                    else if (rest[0] == 'r' && rest.size() > 1 && rest != "rnull") { sc.pm_kind = 2; sc.pm_name = rest.substr(1);
+                        snprintf(buf, sizeof buf, "%u:r:", sc.pm_actor); pm = buf + sc.pm_name; }
+                    else ok = false;
+                }
+            }
+            if (!ok || batch.size() >= MAXBATCH) { vh::emit("> skip"); continue; }
+            sc.sets = pending; pending.clear();
+            vh::emit("> test %s %s %s", sc.outcome.c_str(), bm.c_str(), pm.c_str());
+            batch.push_back(sc);
+        }
+        else if (w[0] == "runall" && w.size() == 1) {      // all queued tests through ONE TestRegistry::runAllTests
+            if (batch.empty()) { vh::emit("> skip"); continue; }
+            vh::emit_op("runall");
+            unsigned n = (unsigned) batch.size();
+            std::vector<ExecFunctionTestShell*> shells; std::vector<ScriptFn*> fns;
+            g_bn = n; g_nblog = 0; g_bskipped = 0;
+            for (unsigned k = 0; k < n; k++) { g_bscript[k] = &batch[k]; g_bdone[k] = 0; g_bshell[k] = 0; }
+            for (unsigned k = 0; k + 1 < n; k++) {
+                ExecFunctionTestShell* sh = new ExecFunctionTestShell(); ScriptFn* fn = new ScriptFn(&batch[k], k);
+                sh->testFunction_ = fn; shells.push_back(sh); fns.push_back(fn); g_bshell[k] = sh;
+            }
+            // addTest puts a test in FRONT of the list: add in reverse so that they run in script order;
+            // the fixture's own test (body() with g_script) is the last one
+            for (unsigned k = n - 1; k-- > 0; ) reg->addTest(shells[k]);
+            g_script = &batch[n - 1];
+            g_batch_active = true;
+            fixture.flushOutputAndResetResult();
+            fixture.runAllTests();
+            g_batch_active = false;
+            for (unsigned k = 0; k + 1 < n; k++) reg->unDoLastAddTest();
+            for (unsigned k = 0; k < n; k++) {
+                std::string pre = "pre", post = "post"; bool anypre = false, anypost = false;
+                for (unsigned e = 0; e < g_nblog; e++) if (g_blog[e].test == k) {
+                    if (g_blog[e].post) { post += " "; post += g_blog[e].name; anypost = true; }
+                    else { pre += " "; pre += g_blog[e].name; anypre = true; }
+                }
+                vh::emit("t%u %s%s", k, pre.c_str(), anypre ? "" : " -");
+                vh::emit("t%u %s%s", k, post.c_str(), anypost ? "" : " -");
+                vh::emit("t%u done %u", k, g_bdone[k]);
+            }
+            if (fixture.getRunCount() != n) vh::emit("ran %lu", (unsigned long) fixture.getRunCount());
+            Local::emit_chain(reg);
+            std::string m = "mem";
+            for (unsigned k = 0; k < NPTR; k++) { m += " "; m += val_token(k); }
+            vh::emit("%s", m.c_str());
+            for (size_t k = 0; k < shells.size(); k++) { delete shells[k]; delete fns[k]; }
+            g_bn = 0; batch.clear();
         }
         else vh::emit("> skip");
     }
